@@ -110,11 +110,15 @@ func verifConcreteTwoChannels() (*verifMgr, [2]datatransfer.ChannelID) {
 	return f, [2]datatransfer.ChannelID{c0, c1}
 }
 
-func verifConcurrent20(n int) {
+func verifConcurrent20(n int, menu ...int) {
 	f, chids := verifConcreteTwoChannels()
 	ops := make([]int, n)
 	for i := range ops {
-		ops[i] = zz.Choice("op", verifNumOps20)
+		if len(menu) > 0 {
+			ops[i] = menu[zz.Choice("op", len(menu))]
+		} else {
+			ops[i] = zz.Choice("op", verifNumOps20)
+		}
 	}
 	var wg sync.WaitGroup
 	for i := range ops {
@@ -192,9 +196,10 @@ func VerifC20_ReentrantSubscriber() {
 	zz.Reach("outer call returned")
 }
 
-// VerifC20_ConcurrentAPIDeep: the same two concurrent operations with a larger scheduling budget
-// (more interleavings of the lock operations: lock-order inversions need specific ones).
+// VerifC20_ConcurrentAPIDeep: two concurrent operations out of the nine that touch the shared
+// tables most (open push, close, pause, restart, subscribe/unsubscribe, block queued, transport
+// completion, new incoming request, validation update) with TWO pre-emptions per path.
 //
 //verif:tier thorough
-//verif:opts race preempt=sync pb=2 sched=4 part0=8 part1=2 novalidate
-func VerifC20_ConcurrentAPIDeep() { verifConcurrent20(2) }
+//verif:opts race preempt=sync pb=2 sched=3 part0=9 part1=1 novalidate
+func VerifC20_ConcurrentAPIDeep() { verifConcurrent20(2, 0, 2, 3, 5, 9, 13, 14, 15, 16) }
